@@ -316,6 +316,10 @@ impl<const H: usize> Writer<H> {
 
         self.sync()?;
 
+        // Move the file cursor back too, otherwise the next append would be written
+        // after the truncated region while being reported at `offset`
+        self.writer.seek(SeekFrom::Start(offset))?;
+
         self.flushed_offset.set(offset);
         self.write_offset = offset;
 
